@@ -46,6 +46,10 @@ func (ups *Socket) Connect(manager cert.TlsConfig, mustSecure bool) error {
 		a.Scheme = addr.PlusEnd.ReplaceAllString(a.Scheme, "")
 		log.Debugf("Dialing TLS %s", a.String())
 
+		// We dial the resolved address, but the certificate has to match the name the user wrote
+		if h := ups.Address.Hostname(); h != "" && tlsConfig.ServerName == "" {
+			tlsConfig.ServerName = h
+		}
 		c, err = tls.Dial(n.Network(), n.String(), tlsConfig)
 	} else {
 		a.Scheme = addr.PlusEnd.ReplaceAllString(a.Scheme, "")
